@@ -75,8 +75,10 @@ int nondet_int(void);
 /* endpoint-clause units: the nondeterministic result and the length of every comparison / key-slice copy are recorded in ghosts
  * (y_memcmp_ghost is defined by the unit's spec) */
 uint64_t g_cpn;
-static inline int y_memcmp_ghost(const void* a, const void* b, uint64_t n);
-#define Y_MEMCMP(a, b, n) y_memcmp_ghost((a), (b), (n))
+static inline int y_memcmp_ghost(const void* a, const void* b, uint64_t n, _Bool in_unit_fn);
+/* only the comparisons made by the function under contract itself are recorded (Y_MEMCMP_GHOST_FN = its emitted name); the others
+ * (e.g. node_version64_body::operator==, nondeterministic in skeleton units) stay plain nondeterministic */
+#define Y_MEMCMP(a, b, n) y_memcmp_ghost((a), (b), (n), (_Bool)(sizeof(__func__) == sizeof(Y_MEMCMP_GHOST_FN) && __func__[0] == Y_MEMCMP_GHOST_FN[0] && __func__[sizeof(__func__) - 2] == Y_MEMCMP_GHOST_FN[sizeof(Y_MEMCMP_GHOST_FN) - 2] && __func__[sizeof(__func__) / 2] == Y_MEMCMP_GHOST_FN[sizeof(Y_MEMCMP_GHOST_FN) / 2]))
 #else
 #define Y_MEMCMP(a, b, n) ((void)(a), (void)(b), (void)(n), nondet_int())
 #endif
